@@ -1,7 +1,1027 @@
-//! C04 — stub (not built yet).
+//! C04 — decoders never panic or run away; accessors of decoded values are
+//! panic-free.
+//!
+//! The oracle (decode through one entry point, then walk every accessor) lives
+//! in `c04_walk.rs`, the lenient TLV scanner / mutation operators in
+//! `c04_tlv.rs`; both are shared with the `der_decoders` fuzz target.
+
+#[path = "c04_tlv.rs"]
+pub mod tlv;
+#[path = "c04_walk.rs"]
+pub mod walk;
 
 use crate::engine::*;
+use crate::gen::pick_idx;
+use crate::keys::{self, PoolSigner};
+use proptest::prelude::*;
+use serde::{Deserialize, Serialize};
+use serde_json::json;
+use std::net::{Ipv4Addr, Ipv6Addr};
+use std::str::FromStr;
+use std::sync::OnceLock;
+
+use bytes::Bytes;
+use rpki::ca::csr::Csr;
+use rpki::ca::idcert::IdCert;
+use rpki::ca::idexchange::{RecipientHandle, SenderHandle};
+use rpki::ca::provisioning::{self, ProvisioningCms};
+use rpki::ca::publication::{self, PublicationCms};
+use rpki::crypto::{DigestAlgorithm, RpkiSignatureAlgorithm};
+use rpki::dep::bcder::encode::Values as _;
+use rpki::dep::bcder::{Mode, Oid};
+use rpki::repository::aspa::AspaBuilder;
+use rpki::repository::cert::{Cert, ExtendedKeyUsage, KeyUsage, Overclaim, TbsCert};
+use rpki::repository::crl::{CrlEntry, TbsCertList};
+use rpki::repository::manifest::{FileAndHash, ManifestContent};
+use rpki::repository::resources::{AddressRange, Addr, AsBlock, Prefix};
+use rpki::repository::roa::RoaBuilder;
+use rpki::repository::rta::AttestationBuilder;
+use rpki::repository::sigobj::SignedObjectBuilder;
+use rpki::repository::x509::{Serial, Time, Validity};
+use rpki::resources::Asn;
+use rpki::uri;
+
+pub const RULE: &str = "seeds: every seed object (files of /repo/test-data + objects built at start-up with the library \
+builders and the key pool) unmutated through its entry point in every mode, then the accessor walk; complete. prefixes: \
+every proper prefix of every seed through its entry point (complete enumeration of truncation points; seeds > 16 KiB: every \
+61st). mutate: (entry point, strict flag, seed, 1-6 TLV mutation operators with numeric parameters: value byte, tag, length \
+form incl. long / indefinite / overflowing / lying, raw and structured truncation, delete, duplicate (up to 17000x), splice \
+of a subtree of any other seed, nest up to 20000 levels, INTEGER / BIT STRING edge values, swap of range ends and siblings, \
+raw byte edits, INTEGER -> AS range incl. AS0-AS4294967295 and min > max, BIT STRING -> address range, time / URI / OID \
+strings); the mutated bytes are recomputed from the case. resign: a library-created RFC 6492 / RFC 8181 message whose embedded CRL gets 0-5 entries and 0-3 TLV mutations inside the TBSCertList (length forms, value bytes, edge values, ...) and is signed again with the issuing pool key, decoded and validated under that key (non-trivial = validation succeeded, i.e. ran through the revocation lookup). random: pure random bytes (0..600 octets), optionally behind the \
+first k octets of a seed. Oracle for all: decode returns Ok or Err without panicking; on Ok the accessor walk (every getter, \
+inspect_*, validation against a fixed issuer / key / TAL, Crl::contains + iterator + cache_serials, manifest \
+iter / iter_uris / len, ROA iter / iter_origins, ASPA provider iterator / to_set, resource-block iterators bounded by \
+take(4096), set operations against fixed issuer resources, asn_count, Display / Debug, re-encoding and re-decoding) does not \
+panic; when the counting allocator is installed: peak live bytes <= 64*len + 1 MiB and allocation calls <= 64*len + 4096 \
+per decode + walk. non-trivial = the decoder returned Ok (walk ran), or its first stage succeeded (outer SignedData / \
+SignedObject / SignedMessage / key-info text accepted, failure in the typed content), or the reported error position lies \
+behind the headers of the first three nested TLVs of the input.";
+
+//------------ seeds -------------------------------------------------------------
+
+pub struct Seed {
+    pub name: String,
+    pub entry: u8,
+    /// DER bytes (TAL: the SubjectPublicKeyInfo)
+    pub der: Vec<u8>,
+    /// TAL only: comment / URI lines in front of the base64 block
+    pub tal_head: Option<Vec<u8>>,
+    /// expected to decode (in relaxed mode where there is a switch)
+    pub valid: bool,
+    /// also valid in strict mode
+    pub strict_ok: bool,
+}
+
+pub struct Seeds {
+    /// when the library-created protocol messages were made
+    pub created: Time,
+    pub all: Vec<Seed>,
+    /// indices into `all` per entry point
+    pub per_entry: Vec<Vec<usize>>,
+}
+
+macro_rules! td {
+    ($p:literal) => {
+        (&include_bytes!(concat!("/repo/test-data/", $p))[..], $p)
+    };
+}
+
+use tlv::{b64, unb64};
+
+fn t0() -> Time {
+    Time::utc(2020, 1, 1, 0, 0, 0)
+}
+fn t1() -> Time {
+    Time::utc(2040, 1, 1, 0, 0, 0)
+}
+fn tsig() -> Time {
+    Time::utc(2024, 3, 1, 12, 0, 0)
+}
+fn rsync(s: &str) -> uri::Rsync {
+    uri::Rsync::from_str(s).expect("rsync uri")
+}
+
+fn sob(serial: u64) -> SignedObjectBuilder {
+    let mut b = SignedObjectBuilder::new(
+        Serial::from(serial),
+        Validity::new(t0(), t1()),
+        rsync("rsync://example.com/repo/ca.crl"),
+        rsync("rsync://example.com/repo/ca.cer"),
+        rsync("rsync://example.com/repo/obj.bin"),
+    );
+    b.set_signing_time(tsig());
+    b
+}
+
+fn ta_cert(signer: &PoolSigner, key: usize, trim: bool) -> Cert {
+    let k = signer.key(key);
+    let pk = signer.info(key);
+    let mut c = TbsCert::new(
+        Serial::from(12u64),
+        pk.to_subject_name(),
+        Validity::new(t0(), t1()),
+        None,
+        pk,
+        KeyUsage::Ca,
+        if trim { Overclaim::Trim } else { Overclaim::Refuse },
+    );
+    c.set_basic_ca(Some(true));
+    c.set_ca_repository(Some(rsync("rsync://example.com/repo/")));
+    c.set_rpki_manifest(Some(rsync("rsync://example.com/repo/ca.mft")));
+    c.set_rpki_notify(Some(uri::Https::from_str("https://example.com/rrdp/notification.xml").expect("https")));
+    c.build_v4_resource_blocks(|b| b.push(Prefix::new(0, 0)));
+    c.build_v6_resource_blocks(|b| b.push(Prefix::new(0, 0)));
+    c.build_as_resource_blocks(|b| b.push((Asn::MIN, Asn::MAX)));
+    c.into_cert(signer, &k).expect("sign ta")
+}
+
+/// Pool key all protocol messages of the harness are issued under.
+const MSG_KEY: usize = 7;
+
+fn build_seeds() -> Seeds {
+    let created = Time::now();
+    walk::trust(vec![(keys::pool().infos[MSG_KEY].clone(), created)]);
+    let signer = PoolSigner::with_first(1, 0xC04);
+    let k0 = signer.key(0);
+    let mut all: Vec<Seed> = Vec::new();
+    let mut add = |entry: u8, name: &str, der: Vec<u8>, valid: bool, strict_ok: bool| {
+        all.push(Seed { name: name.to_string(), entry, der, tal_head: None, valid, strict_ok });
+    };
+    let file = |x: (&[u8], &str)| -> (Vec<u8>, String) { (x.0.to_vec(), x.1.to_string()) };
+
+    // --- Cert
+    for f in [td!("repository/ta.cer"), td!("repository/ca1.cer"), td!("repository/router.cer")] {
+        let (d, n) = file(f);
+        add(walk::CERT, &n, d, true, true);
+    }
+    add(walk::CERT, "built-ta", ta_cert(&signer, 0, false).to_captured().into_bytes().to_vec(), true, true);
+    add(walk::CERT, "built-ta-trim", ta_cert(&signer, 2, true).to_captured().into_bytes().to_vec(), true, true);
+    {
+        // CA certificate with ranges, several blocks and inherited IPv6
+        let pk = signer.info(3);
+        let mut c = TbsCert::new(
+            Serial::from(0x1234_5678_9abc_def0u64),
+            signer.info(0).to_subject_name(),
+            Validity::new(t0(), t1()),
+            None,
+            pk,
+            KeyUsage::Ca,
+            Overclaim::Refuse,
+        );
+        c.set_basic_ca(Some(true));
+        c.set_authority_key_identifier(Some(signer.info(0).key_identifier()));
+        c.set_crl_uri(Some(rsync("rsync://example.com/repo/ca.crl")));
+        c.set_ca_issuer(Some(rsync("rsync://example.com/repo/ca.cer")));
+        c.set_ca_repository(Some(rsync("rsync://example.com/repo/sub/")));
+        c.set_rpki_manifest(Some(rsync("rsync://example.com/repo/sub/sub.mft")));
+        c.build_v4_resource_blocks(|b| {
+            b.push(Prefix::new(Ipv4Addr::new(10, 0, 0, 0), 8));
+            b.push(AddressRange::new(Addr::from(Ipv4Addr::new(192, 0, 2, 1)), Addr::from(Ipv4Addr::new(192, 0, 2, 77)).to_max(32)));
+            b.push(Prefix::new(Ipv4Addr::new(198, 51, 100, 0), 24));
+        });
+        c.set_v6_resources_inherit();
+        c.build_as_resource_blocks(|b| {
+            b.push(Asn::from_u32(64496));
+            b.push((Asn::from_u32(64500), Asn::from_u32(64510)));
+            b.push((Asn::from_u32(4200000000), Asn::from_u32(4294967294)));
+        });
+        add(walk::CERT, "built-ca-ranges", c.into_cert(&signer, &k0).expect("sign").to_captured().into_bytes().to_vec(), true, true);
+    }
+    {
+        // router certificate on a P-256 key
+        let mut c = TbsCert::new(
+            Serial::from(42u64),
+            signer.info(0).to_subject_name(),
+            Validity::new(t0(), t1()),
+            None,
+            keys::ec_key(0),
+            KeyUsage::Ee,
+            Overclaim::Refuse,
+        );
+        c.set_authority_key_identifier(Some(signer.info(0).key_identifier()));
+        c.set_ca_issuer(Some(rsync("rsync://example.com/repo/ca.cer")));
+        c.set_crl_uri(Some(rsync("rsync://example.com/repo/ca.crl")));
+        c.set_extended_key_usage(Some(ExtendedKeyUsage::create_router()));
+        c.build_as_resource_blocks(|b| {
+            b.push(Asn::from_u32(12));
+            b.push(Asn::from_u32(4294967295));
+        });
+        add(walk::CERT, "built-router", c.into_cert(&signer, &k0).expect("sign").to_captured().into_bytes().to_vec(), true, true);
+    }
+    add(walk::CERT, "compat/res_incorrect.cer", td!("compat/res_incorrect.cer").0.to_vec(), false, false);
+
+    // --- Crl
+    for f in [td!("repository/ta.crl"), td!("repository/ca1.crl")] {
+        let (d, n) = file(f);
+        add(walk::CRL, &n, d, true, true);
+    }
+    for (name, n) in [("built-crl-empty", 0u64), ("built-crl-3", 3), ("built-crl-40", 40)] {
+        let pk = signer.info(0);
+        let entries: Vec<CrlEntry> = (0..n)
+            .map(|i| CrlEntry::new(Serial::from(1 + i * i * 7919 + (i << 40)), Time::utc(2023, 1 + (i % 12) as u32, 1, 0, 0, 0)))
+            .collect();
+        let crl = TbsCertList::new(
+            RpkiSignatureAlgorithm::default(),
+            pk.to_subject_name(),
+            t0(),
+            t1(),
+            entries,
+            pk.key_identifier(),
+            Serial::from(7u64 + n),
+        )
+        .into_crl(&signer, &k0)
+        .expect("sign crl");
+        add(walk::CRL, name, crl.to_captured().into_bytes().to_vec(), true, true);
+    }
+
+    // --- Manifest
+    for f in [td!("repository/ta.mft"), td!("repository/ca1.mft")] {
+        let (d, n) = file(f);
+        add(walk::MANIFEST, &n, d, true, true);
+    }
+    for (name, n) in [("built-mft-0", 0usize), ("built-mft-2", 2), ("built-mft-30", 30)] {
+        let files: Vec<FileAndHash<Vec<u8>, Vec<u8>>> = (0..n)
+            .map(|i| {
+                let ext = ["cer", "roa", "crl", "asa", "mft", "gbr"][i % 6];
+                FileAndHash::new(format!("obj-{}_{}.{}", i, i * 31, ext).into_bytes(), keys::sha256(&[i as u8]).to_vec())
+            })
+            .collect();
+        let m = ManifestContent::new(Serial::from(99u64 + n as u64), t0(), t1(), DigestAlgorithm::default(), files.iter())
+            .into_manifest(sob(100 + n as u64), &signer, &k0)
+            .expect("sign mft");
+        add(walk::MANIFEST, name, m.to_captured().into_bytes().to_vec(), true, true);
+    }
+    add(walk::MANIFEST, "signature-alg-mismatch.mft", td!("repository/signature-alg-mismatch.mft").0.to_vec(), false, false);
+    add(walk::MANIFEST, "ta.mft.bad-filename", td!("repository/ta.mft.bad-filename").0.to_vec(), false, false);
+
+    // --- Roa
+    add(walk::ROA, "repository/example-ripe.roa", td!("repository/example-ripe.roa").0.to_vec(), true, false);
+    let ee_cert;
+    {
+        let mut r = RoaBuilder::new(Asn::from_u32(64496));
+        r.push_v4_addr(Ipv4Addr::new(192, 0, 2, 0), 24, None);
+        let roa = r.finalize(sob(201), &signer, &k0).expect("sign roa");
+        ee_cert = roa.cert().to_captured().into_bytes().to_vec();
+        add(walk::ROA, "built-roa-v4", roa.to_captured().into_bytes().to_vec(), true, true);
+        let mut r = RoaBuilder::new(Asn::from_u32(4294967295));
+        r.push_v4_addr(Ipv4Addr::new(10, 0, 0, 0), 8, Some(24));
+        r.push_v4_addr(Ipv4Addr::new(0, 0, 0, 0), 0, Some(32));
+        r.push_v4_addr(Ipv4Addr::new(203, 0, 113, 255), 32, Some(32));
+        r.push_v6_addr(Ipv6Addr::from_str("2001:db8::").unwrap(), 32, Some(48));
+        r.push_v6_addr(Ipv6Addr::from_str("::").unwrap(), 0, None);
+        r.push_v6_addr(Ipv6Addr::from_str("2001:db8::1").unwrap(), 128, Some(128));
+        let roa = r.finalize(sob(202), &signer, &k0).expect("sign roa");
+        add(walk::ROA, "built-roa-v4v6", roa.to_captured().into_bytes().to_vec(), true, true);
+        let mut r = RoaBuilder::new(Asn::from_u32(0));
+        for i in 0..40u8 {
+            r.push_v6_addr(Ipv6Addr::new(0x2001, 0xdb8, i as u16, 0, 0, 0, 0, 0), 48, Some(48 + i % 17));
+        }
+        let roa = r.finalize(sob(203), &signer, &k0).expect("sign roa");
+        add(walk::ROA, "built-roa-v6-40", roa.to_captured().into_bytes().to_vec(), true, true);
+    }
+    add(walk::CERT, "ee-of-built-roa", ee_cert, true, true);
+    for f in [td!("repository/maxlen-overflow.roa"), td!("repository/maxlen-underflow.roa"), td!("repository/prefix-len-overflow.roa")] {
+        let (d, n) = file(f);
+        add(walk::ROA, &n, d, false, false);
+    }
+
+    // --- Aspa
+    add(walk::ASPA, "repository/aspa-bm.asa", td!("repository/aspa-bm.asa").0.to_vec(), false, false); // older profile draft
+    for (name, cust, provs) in [
+        ("built-aspa-1", 64496u32, vec![64497u32]),
+        ("built-aspa-5", 4294967295, vec![0, 1, 65536, 4200000000, 4294967294]),
+        ("built-aspa-60", 65000, (0..60).map(|i| 100 + i * 1000).collect()),
+    ] {
+        let a = AspaBuilder::new(Asn::from_u32(cust), provs.into_iter().map(Asn::from_u32).collect::<Vec<_>>())
+            .expect("aspa builder")
+            .finalize(sob(300 + cust as u64 % 7), &signer, &k0)
+            .expect("sign aspa");
+        add(walk::ASPA, name, a.to_captured().into_bytes().to_vec(), true, true);
+    }
+
+    // --- Rta
+    for (name, nkeys) in [("built-rta-1", 1usize), ("built-rta-2", 2), ("built-rta-as-only", 1)] {
+        let digest = DigestAlgorithm::default().digest(name.as_bytes());
+        let mut ab = AttestationBuilder::new(DigestAlgorithm::default(), digest.into());
+        for i in 0..nkeys {
+            ab.push_key(signer.info(4 + i).key_identifier());
+        }
+        ab.push_as(AsBlock::from(Asn::from_u32(64496)));
+        ab.push_as(AsBlock::from((Asn::from_u32(65000), Asn::from_u32(65010))));
+        if name != "built-rta-as-only" {
+            ab.push_v4(Prefix::new(Ipv4Addr::new(192, 0, 2, 0), 24));
+            ab.push_v4(AddressRange::new(Addr::from(Ipv4Addr::new(10, 0, 0, 3)), Addr::from(Ipv4Addr::new(10, 0, 9, 0)).to_max(32)));
+            ab.push_v6(Prefix::new(Ipv6Addr::from_str("2001:db8::").unwrap(), 32));
+        }
+        let mut rb = ab.into_rta_builder();
+        for i in 0..nkeys {
+            let mut c = TbsCert::new(
+                Serial::from(500u64 + i as u64),
+                signer.info(0).to_subject_name(),
+                Validity::new(t0(), t1()),
+                None,
+                signer.info(4 + i),
+                KeyUsage::Ee,
+                Overclaim::Refuse,
+            );
+            c.set_authority_key_identifier(Some(signer.info(0).key_identifier()));
+            c.set_crl_uri(Some(rsync("rsync://example.com/repo/ca.crl")));
+            c.set_ca_issuer(Some(rsync("rsync://example.com/repo/ca.cer")));
+            c.build_as_resource_blocks(|b| b.push((Asn::from_u32(64000), Asn::from_u32(66000))));
+            c.build_v4_resource_blocks(|b| b.push(Prefix::new(0, 0)));
+            c.build_v6_resource_blocks(|b| b.push(Prefix::new(0, 0)));
+            rb.push_cert(c.into_cert(&signer, &k0).expect("sign ee"));
+            rb.sign(&signer, &signer.key(4 + i), tsig()).expect("sign rta");
+        }
+        let rta = rb.finalize();
+        add(walk::RTA, name, rta.to_captured().into_bytes().to_vec(), true, true);
+    }
+
+    // --- SignedObject
+    add(walk::SIGOBJ, "repository/ta.mft", td!("repository/ta.mft").0.to_vec(), true, true);
+    add(walk::SIGOBJ, "repository/example-ripe.roa", td!("repository/example-ripe.roa").0.to_vec(), true, false);
+    add(walk::SIGOBJ, "repository/ca1.mft", td!("repository/ca1.mft").0.to_vec(), true, false);
+    add(walk::SIGOBJ, "repository/aspa-bm.asa", td!("repository/aspa-bm.asa").0.to_vec(), false, false);
+    {
+        let mut b = sob(600);
+        b.set_v4_resources_inherit();
+        b.set_as_resources_inherit();
+        let so = b
+            .finalize(Oid(Bytes::from_static(&[0x2a, 0x86, 0x48, 0x86, 0xf7, 0x0d, 0x01, 0x09, 0x10, 0x01, 0x23])), Bytes::from_static(b"\x30\x03\x02\x01\x05"), &signer, &k0)
+            .expect("sign sigobj");
+        let der = so.encode_ref().to_captured(Mode::Der).into_bytes().to_vec();
+        add(walk::SIGOBJ, "built-sigobj-gbr-like", der, true, true);
+    }
+
+    // --- PublicKey
+    add(walk::PUBKEY, "crypto/rsa-key.public.der", td!("crypto/rsa-key.public.der").0.to_vec(), true, true);
+    add(walk::PUBKEY, "pool-rsa0", keys::pool().spki[0].clone(), true, true);
+    add(walk::PUBKEY, "pool-ec0", keys::EC_SPKI[0].to_vec(), true, true);
+    add(walk::PUBKEY, "pool-ec1", keys::EC_SPKI[1].to_vec(), true, true);
+
+    // --- CSRs
+    add(walk::CA_CSR, "ca/drl-csr.der", td!("ca/drl-csr.der").0.to_vec(), true, true);
+    {
+        let c = Csr::construct_rpki_ca(
+            &signer,
+            &signer.key(5),
+            &rsync("rsync://example.com/repo/child/"),
+            &rsync("rsync://example.com/repo/child/child.mft"),
+            Some(&uri::Https::from_str("https://example.com/rrdp/notification.xml").unwrap()),
+        )
+        .expect("csr");
+        add(walk::CA_CSR, "built-csr-notify", c.into_bytes().to_vec(), true, true);
+        let c = Csr::construct_rpki_ca(
+            &signer,
+            &signer.key(6),
+            &rsync("rsync://example.com/repo/child2/"),
+            &rsync("rsync://example.com/repo/child2/c.mft"),
+            None,
+        )
+        .expect("csr");
+        add(walk::CA_CSR, "built-csr-plain", c.into_bytes().to_vec(), true, true);
+    }
+    {
+        let base = td!("ca/router-csr.der").0.to_vec();
+        add(walk::BGPSEC_CSR, "ca/router-csr.der", base.clone(), true, true);
+        // same request around the two pool P-256 keys (signatures are not
+        // checked by the decoder)
+        for (i, name) in ["router-csr-ec0", "router-csr-ec1"].iter().enumerate() {
+            let mut d = base.clone();
+            let nodes = tlv::scan(&d);
+            // SubjectPublicKeyInfo: the SEQUENCE at depth 2 that starts with a SEQUENCE holding an OID
+            if let Some((idx, n)) = nodes.iter().enumerate().find(|(i, n)| {
+                n.depth == 2 && n.tag == 0x30 && nodes.get(i + 1).map(|c| c.tag == 0x30).unwrap_or(false) && nodes.get(i + 2).map(|c| c.tag == 0x06).unwrap_or(false)
+            }) {
+                let n = *n;
+                let _ = idx;
+                tlv::splice(&mut d, &nodes, n.parent, n.start, n.total(), keys::EC_SPKI[i], true);
+            }
+            add(walk::BGPSEC_CSR, name, d, true, true);
+        }
+    }
+
+    // --- IdCert
+    for f in [td!("ca/id_ta.cer"), td!("ca/id_afrinic.cer"), td!("ca/sigmsg/cms_ta.cer")] {
+        let (d, n) = file(f);
+        add(walk::IDCERT, &n, d, true, true);
+    }
+    {
+        let c = IdCert::new_ta(Validity::new(t0(), t1()), &signer.key(MSG_KEY), &signer).expect("idcert");
+        add(walk::IDCERT, "built-id-ta", c.to_captured().into_bytes().to_vec(), true, true);
+    }
+
+    // --- SignedMessage / protocol CMS
+    for f in [
+        td!("ca/sigmsg/pdu_200.der"),
+        td!("ca/rfc6492/list.der"),
+        td!("ca/rfc6492/issue.der"),
+        td!("ca/rfc6492/issue-response.der"),
+        td!("ca/rfc6492/apnic-testbed-response.der"),
+    ] {
+        let (d, n) = file(f);
+        add(walk::SIGMSG, &n, d, true, false);
+    }
+    for f in [
+        td!("ca/rfc6492/list.der"),
+        td!("ca/rfc6492/issue.der"),
+        td!("ca/rfc6492/issue-response.der"),
+        td!("ca/rfc6492/afrinic-response.der"),
+        td!("ca/rfc6492/apnic-response.der"),
+        td!("ca/rfc6492/apnic-testbed-response.der"),
+    ] {
+        let (d, n) = file(f);
+        add(walk::PROV_CMS, &n, d, true, true);
+    }
+    {
+        // library-created messages: signing time and CRL number come from the
+        // wall clock (fixed-width fields, see DESIGN "Determinism")
+        let msg = provisioning::Message::list(SenderHandle::new("child".into()), RecipientHandle::new("parent".into()));
+        let cms = ProvisioningCms::create(msg, &signer.key(MSG_KEY), &signer).expect("prov cms");
+        add(walk::PROV_CMS, "built-prov-list", cms.to_bytes().to_vec(), true, true);
+        add(walk::SIGMSG, "built-prov-list", cms.to_bytes().to_vec(), true, true);
+    }
+    add(walk::PUB_CMS, "ca/sigmsg/pdu_200.der", td!("ca/sigmsg/pdu_200.der").0.to_vec(), false, false); // CMS is fine, payload is not RFC 8181
+    {
+        let cms = PublicationCms::create(publication::Message::list_query(), &signer.key(MSG_KEY), &signer).expect("pub cms");
+        add(walk::PUB_CMS, "built-pub-list", cms.to_bytes().to_vec(), true, true);
+        let mut delta = publication::PublishDelta::empty();
+        delta.add_publish(publication::Publish::new(
+            Some("tag1".into()),
+            rsync("rsync://example.com/repo/a.cer"),
+            publication::Base64::from_content(td!("repository/ta.cer").0),
+        ));
+        delta.add_withdraw(publication::Withdraw::new(
+            None,
+            rsync("rsync://example.com/repo/b.roa"),
+            publication::Base64::from_content(b"old").to_hash(),
+        ));
+        let cms = PublicationCms::create(publication::Message::delta(delta), &signer.key(MSG_KEY), &signer).expect("pub cms");
+        add(walk::PUB_CMS, "built-pub-delta", cms.to_bytes().to_vec(), true, true);
+        let cms = PublicationCms::create(publication::Message::success(), &signer.key(MSG_KEY), &signer).expect("pub cms");
+        add(walk::PUB_CMS, "built-pub-success", cms.to_bytes().to_vec(), true, true);
+        add(walk::SIGMSG, "built-pub-success", cms.to_bytes().to_vec(), true, true);
+    }
+    // large BER sample: replayed unmutated (and in `prefixes`), not mutated
+    add(walk::SIGMSG, "ca/rfc6492/list-response.ber", td!("ca/rfc6492/list-response.ber").0.to_vec(), true, false);
+
+    // --- Tal
+    {
+        let text = td!("repository/ripe.tal").0;
+        let split = text.windows(2).position(|w| w == b"\n\n").map(|p| p + 2).expect("ripe.tal has a blank line");
+        all.push(Seed {
+            name: "repository/ripe.tal".into(),
+            entry: walk::TAL,
+            der: unb64(&text[split..]),
+            tal_head: Some(text[..split].to_vec()),
+            valid: true,
+            strict_ok: true,
+        });
+        all.push(Seed {
+            name: "built-tal-https".into(),
+            entry: walk::TAL,
+            der: keys::pool().spki[1].clone(),
+            tal_head: Some(b"# comment line\n# another\nhttps://example.com/ta/ta.cer\nrsync://example.com/ta/ta.cer\n\n".to_vec()),
+            valid: true,
+            strict_ok: true,
+        });
+        all.push(Seed {
+            name: "built-tal-crlf".into(),
+            entry: walk::TAL,
+            der: keys::pool().spki[2].clone(),
+            tal_head: Some(b"rsync://example.com/ta/ta.cer\r\n\r\n".to_vec()),
+            valid: true,
+            strict_ok: true,
+        });
+    }
+
+    let mut per_entry = vec![Vec::new(); walk::N_ENTRIES as usize];
+    for (i, s) in all.iter().enumerate() {
+        per_entry[s.entry as usize].push(i);
+    }
+    if let Ok(dir) = std::env::var("VERIF_C04_DUMP_SEEDS") {
+        // corpus export for the fuzz target (selector octet + input)
+        let _ = std::fs::create_dir_all(&dir);
+        for s in all.iter().filter(|s| s.valid && s.der.len() <= 16 * 1024) {
+            let mut f = vec![walk::selector(s.entry, false)];
+            f.extend(assemble(s, s.der.clone(), &[]));
+            let name: String = s.name.chars().map(|c| if c.is_ascii_alphanumeric() || c == '.' || c == '-' { c } else { '_' }).collect();
+            let _ = std::fs::write(format!("{}/{}-{}", dir, walk::ENTRIES[s.entry as usize].0, name), f);
+        }
+    }
+    Seeds { created, all, per_entry }
+}
+
+pub fn seeds() -> &'static Seeds {
+    static S: OnceLock<Seeds> = OnceLock::new();
+    S.get_or_init(build_seeds)
+}
+
+/// Seeds above this size are replayed but not mutated.
+const MUTATE_MAX_SEED: usize = 16 * 1024;
+/// Cap on mutated inputs.
+const MAX_INPUT: usize = 192 * 1024;
+
+/// Final input bytes of a (possibly mutated) seed; `text_ops` are raw edits of
+/// the TAL text.
+fn assemble(seed: &Seed, der: Vec<u8>, text_ops: &[tlv::Op]) -> Vec<u8> {
+    match &seed.tal_head {
+        None => der,
+        Some(head) => {
+            let mut out = head.clone();
+            out.extend(b64(&der));
+            for op in text_ops {
+                tlv::raw(&mut out, *op);
+            }
+            out
+        }
+    }
+}
+
+//------------ cases ----------------------------------------------------------------
+
+#[derive(Clone, Copy, Debug, Serialize, Deserialize, PartialEq)]
+pub struct MOp {
+    pub kind: u8,
+    pub sel: u16,
+    pub a: u32,
+    pub b: u32,
+}
+
+impl MOp {
+    fn op(self) -> tlv::Op {
+        tlv::Op { kind: self.kind, sel: self.sel, a: self.a, b: self.b }
+    }
+}
+
+#[derive(Clone, Debug, Serialize, Deserialize)]
+pub struct Case {
+    pub entry: u8,
+    pub strict: bool,
+    /// raw seed selector, mapped monotonically onto the entry point's seeds
+    pub seed: u16,
+    pub ops: Vec<MOp>,
+    /// regress files name the seed instead, so that they survive additions
+    /// to the seed list
+    #[serde(default, skip_serializing_if = "Option::is_none")]
+    pub seed_name: Option<String>,
+}
+
+fn mutable_seeds(entry: u8) -> Vec<usize> {
+    let s = seeds();
+    s.per_entry[entry as usize].iter().copied().filter(|&i| s.all[i].der.len() <= MUTATE_MAX_SEED).collect()
+}
+
+fn mutated_bytes(c: &Case) -> (Vec<u8>, usize) {
+    let s = seeds();
+    let entry = c.entry % walk::N_ENTRIES;
+    let list = mutable_seeds(entry);
+    let idx = c
+        .seed_name
+        .as_ref()
+        .and_then(|n| list.iter().copied().find(|&i| &s.all[i].name == n))
+        .unwrap_or_else(|| list[pick_idx(c.seed, list.len())]);
+    let seed = &s.all[idx];
+    let mut der = seed.der.clone();
+    let donors: Vec<usize> = (0..s.all.len()).filter(|&i| s.all[i].der.len() <= MUTATE_MAX_SEED).collect();
+    let donor = |a: u32| -> Vec<u8> { s.all[donors[a as usize % donors.len()]].der.clone() };
+    let mut text_ops = Vec::new();
+    for m in &c.ops {
+        if seed.tal_head.is_some() && m.kind % tlv::N_KINDS == 10 {
+            text_ops.push(m.op());
+        } else {
+            tlv::apply(&mut der, m.op(), &donor, MAX_INPUT);
+        }
+    }
+    (assemble(seed, der, &text_ops), idx)
+}
+
+fn op_strategy() -> BoxedStrategy<MOp> {
+    let kind = prop_oneof![
+        8 => Just(0u8),  // value byte
+        6 => Just(1u8),  // tag
+        8 => Just(2u8),  // length
+        6 => Just(3u8),  // truncate
+        5 => Just(4u8),  // delete
+        5 => Just(5u8),  // duplicate
+        6 => Just(6u8),  // splice
+        4 => Just(7u8),  // nest
+        8 => Just(8u8),  // edge value
+        5 => Just(9u8),  // swap
+        3 => Just(10u8), // raw
+        6 => Just(11u8), // make range
+        5 => Just(12u8), // strings
+        5 => Just(13u8), // AS edge
+    ];
+    let small = || prop_oneof![3 => 0u32..64, 1 => any::<u32>()];
+    (kind, any::<u16>(), small(), small()).prop_map(|(kind, sel, a, b)| MOp { kind, sel, a, b }).boxed()
+}
+
+fn mutate_strategy(_: Tier) -> BoxedStrategy<Case> {
+    // 1-6 operators, fewer more often (keeps a useful share of inputs decodable)
+    let count = prop_oneof![7 => Just(1usize), 5 => Just(2usize), 3 => Just(3usize), 2 => Just(4usize), 2 => Just(5usize), 1 => Just(6usize)];
+    (0..walk::N_ENTRIES, any::<bool>(), any::<u16>(), count, prop::collection::vec(op_strategy(), 6))
+        .prop_map(|(entry, strict, seed, n, mut ops)| {
+            ops.truncate(n);
+            Case { entry, strict: strict && walk::ENTRIES[entry as usize].1, seed, ops, seed_name: None }
+        })
+        .boxed()
+}
+
+//------------ oracle ----------------------------------------------------------------
+
+/// Signature that does not depend on line numbers or the checkout directory:
+/// `panic:<file name>:<first words of the message>`.
+fn stable_sig(f: Fail) -> Fail {
+    // engine message: "<what>: panic at <crate>/src/<path>:<line>: <msg>"
+    let Some(rest) = f.msg.split(": panic at ").nth(1) else { return f };
+    let (loc, msg) = rest.split_once(": ").unwrap_or((rest, ""));
+    let file = loc.rsplit('/').next().unwrap_or(loc);
+    let file = file.split(':').next().unwrap_or(file);
+    let mut m: String = msg.chars().take_while(|c| *c != '\n').take(60).collect();
+    // drop embedded values ("index 5 out of range for slice of length 3")
+    m = m.chars().map(|c| if c.is_ascii_digit() { '#' } else { c }).collect();
+    Fail::sig(format!("panic:{}:{}", file, m.trim()), f.msg)
+}
+
+static ENTRY_LABELS: [&str; walk::N_ENTRIES as usize] = [
+    "ep:cert", "ep:crl", "ep:manifest", "ep:roa", "ep:aspa", "ep:rta", "ep:sigobj", "ep:tal", "ep:pubkey", "ep:ca-csr",
+    "ep:bgpsec-csr", "ep:idcert", "ep:sigmsg", "ep:prov-cms", "ep:pub-cms",
+];
+
+fn hex(b: &[u8]) -> String {
+    let mut s = String::with_capacity(b.len() * 2);
+    for x in b.iter().take(400) {
+        s.push_str(&format!("{:02x}", x));
+    }
+    if b.len() > 400 {
+        s.push_str("...");
+    }
+    s
+}
+
+/// Calibration knob: `VERIF_C04_ALLOC_DIV=8` divides the allocation bounds by 8.
+fn alloc_div() -> u64 {
+    static D: OnceLock<u64> = OnceLock::new();
+    *D.get_or_init(|| std::env::var("VERIF_C04_ALLOC_DIV").ok().and_then(|s| s.parse().ok()).unwrap_or(1))
+}
+
+/// Decides one input. Returns the walk outcome.
+fn decide(entry: u8, strict: bool, data: &[u8], obs: &mut Obs) -> Result<walk::Outcome, Fail> {
+    let _ = walk::fixed();
+    let (res, stats) = walk::measure(|| no_panic("decode+walk", || walk::decode_and_walk(entry, strict, data)));
+    let out = match res {
+        Ok(o) => o,
+        Err(f) => {
+            let mut f = stable_sig(f);
+            f.msg = format!(
+                "entry point {} (strict={}) on {} octets [{}]: {}",
+                walk::ENTRIES[entry as usize % walk::ENTRIES.len()].0, strict, data.len(), hex(data), f.msg
+            );
+            return Err(f);
+        }
+    };
+    if stats.active {
+        obs.label("alloc-measured");
+        if let Err(which) = walk::within_bounds(data.len(), &stats, alloc_div()) {
+            return Err(Fail::sig(
+                which,
+                format!(
+                    "entry point {} on {} octets: {} allocation calls, peak {} live bytes exceed the bound (64*len + 4096 calls, 64*len + 1 MiB) [{}]",
+                    walk::ENTRIES[entry as usize].0, data.len(), stats.calls, stats.peak, hex(data)
+                ),
+            ));
+        }
+    }
+    obs.label(ENTRY_LABELS[entry as usize % ENTRY_LABELS.len()]);
+    let deep = out.err_pos.zip(tlv::third_header_end(data)).map(|(p, t)| p >= t).unwrap_or(false);
+    let typed = out.ok || out.stage1 || deep;
+    obs.label_if(out.ok, "ok");
+    obs.label_if(typed, "typed");
+    obs.label_if(!typed, "wrapper-reject");
+    obs.nontrivial_if(typed);
+    Ok(out)
+}
+
+fn run_mutate(c: &Case, obs: &mut Obs) -> CheckResult {
+    let entry = c.entry % walk::N_ENTRIES;
+    let (data, idx) = mutated_bytes(c);
+    if let Some(m) = c.ops.first() {
+        obs.label(tlv::KIND_NAMES[(m.kind % tlv::N_KINDS) as usize]);
+    }
+    obs.label_if(c.strict, "strict");
+    decide(entry, c.strict, &data, obs).map(|_| ()).map_err(|mut f| {
+        f.msg = format!("seed '{}' + {} mutation(s): {}", seeds().all[idx].name, c.ops.len(), f.msg);
+        f
+    })
+}
+
+//------------ seeds sub-check -------------------------------------------------------
+
+#[derive(Clone, Debug, Serialize, Deserialize)]
+pub struct SeedCase {
+    pub idx: usize,
+    pub strict: bool,
+}
+
+fn seed_count(_: Tier, _: u64) -> u64 {
+    seeds().all.len() as u64 * 2
+}
+fn seed_make(_: Tier, _: u64, i: u64) -> SeedCase {
+    SeedCase { idx: (i / 2) as usize, strict: i % 2 == 1 }
+}
+
+fn run_seed(c: &SeedCase, obs: &mut Obs) -> CheckResult {
+    let s = seeds();
+    let Some(seed) = s.all.get(c.idx) else { return Err(Fail::new("seed index out of range")) };
+    let has_switch = walk::ENTRIES[seed.entry as usize].1;
+    if c.strict && !has_switch {
+        return Ok(());
+    }
+    let data = assemble(seed, seed.der.clone(), &[]);
+    let out = decide(seed.entry, c.strict, &data, obs)?;
+    // strict mode: several test-data objects are BER, so only the relaxed /
+    // only mode is asserted; strict acceptance is merely recorded
+    if seed.valid && !c.strict {
+        obs.label("valid-seed");
+        ensure_sig!(out.ok, "seed-rejected", "harness seed '{}' (entry point {}) does not decode",
+            seed.name, walk::ENTRIES[seed.entry as usize].0);
+        ensure!(out.steps > 5, "walk of seed '{}' touched only {} accessors", seed.name, out.steps);
+        let n_valid = s.per_entry[seed.entry as usize].iter().filter(|&&i| s.all[i].valid).count();
+        ensure!(n_valid >= 3, "entry point {} has only {} valid seeds", walk::ENTRIES[seed.entry as usize].0, n_valid);
+    }
+    obs.label_if(c.strict && out.ok, "strict-accepted");
+    Ok(())
+}
+
+//------------ prefixes sub-check ----------------------------------------------------
+
+#[derive(Clone, Debug, Serialize, Deserialize)]
+pub struct PrefixCase {
+    pub idx: usize,
+    pub strict: bool,
+    pub start: usize,
+    pub len: usize,
+    pub step: usize,
+}
+
+const PREFIX_CHUNK: usize = 128;
+
+fn prefix_rows() -> &'static Vec<PrefixCase> {
+    static R: OnceLock<Vec<PrefixCase>> = OnceLock::new();
+    R.get_or_init(|| {
+        let s = seeds();
+        let mut rows = Vec::new();
+        for (idx, seed) in s.all.iter().enumerate() {
+            if !seed.valid {
+                continue;
+            }
+            let n = assemble(seed, seed.der.clone(), &[]).len();
+            let step = if n > MUTATE_MAX_SEED { 61 } else { 1 };
+            let modes: &[bool] = if walk::ENTRIES[seed.entry as usize].1 { &[false, true] } else { &[false] };
+            for &strict in modes {
+                let mut start = 0;
+                while start < n {
+                    let len = (PREFIX_CHUNK * step).min(n - start);
+                    rows.push(PrefixCase { idx, strict, start, len, step });
+                    start += len;
+                }
+            }
+        }
+        rows
+    })
+}
+
+fn prefix_count(_: Tier, _: u64) -> u64 {
+    prefix_rows().len() as u64
+}
+fn prefix_make(_: Tier, _: u64, i: u64) -> PrefixCase {
+    prefix_rows()[i as usize].clone()
+}
+
+fn run_prefix(c: &PrefixCase, obs: &mut Obs) -> CheckResult {
+    let s = seeds();
+    let Some(seed) = s.all.get(c.idx) else { return Err(Fail::new("seed index out of range")) };
+    let data = assemble(seed, seed.der.clone(), &[]);
+    let mut evals = 0u64;
+    let mut nt = 0u64;
+    let mut cut = c.start;
+    while cut < (c.start + c.len).min(data.len()) {
+        let mut o = Obs::default();
+        match decide(seed.entry, c.strict, &data[..cut], &mut o) {
+            Ok(_) => {}
+            Err(f) => {
+                return Err(f.with_case(json!({"idx": c.idx, "strict": c.strict, "start": cut, "len": 1, "step": 1})));
+            }
+        }
+        evals += 1;
+        if o.nontrivial {
+            nt += 1;
+        }
+        cut += c.step.max(1);
+    }
+    obs.evals(evals.saturating_sub(1));
+    obs.bulk_nontrivial = nt;
+    obs.label(ENTRY_LABELS[seed.entry as usize]);
+    Ok(())
+}
+
+//------------ random bytes ----------------------------------------------------------
+
+#[derive(Clone, Debug, Serialize, Deserialize)]
+pub struct RandCase {
+    pub entry: u8,
+    pub strict: bool,
+    pub seed: u16,
+    /// number of leading seed octets kept in front of the random bytes
+    pub keep: u16,
+    pub bytes: Vec<u8>,
+}
+
+fn random_strategy(_: Tier) -> BoxedStrategy<RandCase> {
+    let bytes = prop_oneof![
+        4 => prop::collection::vec(any::<u8>(), 0..64),
+        2 => prop::collection::vec(any::<u8>(), 0..600),
+        1 => prop::collection::vec(prop::sample::select(vec![0x30u8, 0x31, 0x02, 0x03, 0x04, 0x06, 0x80, 0x81, 0x82, 0x84, 0xa0, 0x00, 0x01, 0xff]), 0..200),
+    ];
+    let keep = prop_oneof![2 => Just(0u16), 1 => 0u16..48, 1 => 0u16..2000];
+    (0..walk::N_ENTRIES, any::<bool>(), any::<u16>(), keep, bytes)
+        .prop_map(|(entry, strict, seed, keep, bytes)| RandCase {
+            entry,
+            strict: strict && walk::ENTRIES[entry as usize].1,
+            seed: if keep == 0 { 0 } else { seed },
+            keep,
+            bytes,
+        })
+        .boxed()
+}
+
+fn run_random(c: &RandCase, obs: &mut Obs) -> CheckResult {
+    let entry = c.entry % walk::N_ENTRIES;
+    let mut data = Vec::new();
+    if c.keep > 0 {
+        let s = seeds();
+        let list = mutable_seeds(entry);
+        let seed = &s.all[list[pick_idx(c.seed, list.len())]];
+        let full = assemble(seed, seed.der.clone(), &[]);
+        data.extend_from_slice(&full[..(c.keep as usize).min(full.len())]);
+        obs.label("seed-prefix");
+    } else {
+        obs.label("pure-random");
+    }
+    data.extend_from_slice(&c.bytes);
+    decide(entry, c.strict, &data, obs).map(|_| ())
+}
+
+//------------ re-signed protocol CRLs ------------------------------------------------
+
+/// A library-created protocol message whose embedded CRL is edited (entries
+/// added, then TLV mutations inside the TBSCertList) and signed again with
+/// the issuing pool key, so that validation gets as far as the revocation
+/// lookup.
+#[derive(Clone, Debug, Serialize, Deserialize)]
+pub struct ResignCase {
+    /// false: provisioning message, true: publication message
+    pub publication: bool,
+    /// number of entries put on the revocation list
+    pub entries: u8,
+    /// mutations applied to the TBSCertList alone
+    pub ops: Vec<MOp>,
+}
+
+fn resign_strategy(_: Tier) -> BoxedStrategy<ResignCase> {
+    let op = (
+        prop_oneof![6 => Just(2u8), 2 => Just(0u8), 2 => Just(8u8), 1 => Just(5u8), 1 => Just(12u8), 1 => Just(7u8), 1 => Just(9u8), 1 => Just(4u8)],
+        any::<u16>(),
+        prop_oneof![3 => 0u32..16, 1 => any::<u32>()],
+        prop_oneof![3 => 0u32..64, 1 => any::<u32>()],
+    )
+        .prop_map(|(kind, sel, a, b)| MOp { kind, sel, a, b });
+    (any::<bool>(), 0u8..6, prop::collection::vec(op, 0..=3))
+        .prop_map(|(publication, entries, ops)| ResignCase { publication, entries, ops })
+        .boxed()
+}
+
+fn resigned_bytes(c: &ResignCase) -> Result<Vec<u8>, Fail> {
+    let s = seeds();
+    let name = if c.publication { "built-pub-list" } else { "built-prov-list" };
+    let entry = if c.publication { walk::PUB_CMS } else { walk::PROV_CMS };
+    let seed = s.all.iter().find(|x| x.name == name && x.entry == entry).ok_or_else(|| Fail::new("message seed missing"))?;
+    let mut msg = seed.der.clone();
+    let nodes = tlv::scan(&msg);
+    let bad = || Fail::new("unexpected layout of a library-created message");
+    let crls = nodes.iter().position(|n| n.tag == 0xa1 && n.depth == 3).ok_or_else(bad)?;
+    let list = *nodes.get(crls + 1).filter(|n| n.tag == 0x30 && n.depth == 4).ok_or_else(bad)?;
+    let tbs_n = *nodes.get(crls + 2).filter(|n| n.tag == 0x30 && n.depth == 5).ok_or_else(bad)?;
+    let alg_n = *nodes.iter().skip(crls + 3).find(|n| n.depth == 5 && n.parent == crls + 1).ok_or_else(bad)?;
+    let mut tbs = msg[tbs_n.start..tbs_n.end()].to_vec();
+    let alg = msg[alg_n.start..alg_n.end()].to_vec();
+    // the revocation list: first SEQUENCE behind the two times
+    {
+        let tn = tlv::scan(&tbs);
+        let times: Vec<usize> = tn.iter().enumerate().filter(|(_, n)| n.depth == 1 && matches!(n.tag, 0x17 | 0x18)).map(|(i, _)| i).collect();
+        let last = *times.last().ok_or_else(bad)?;
+        let rev = tn.iter().enumerate().skip(last + 1).find(|(_, n)| n.depth == 1).ok_or_else(bad)?;
+        ensure!(rev.1.tag == 0x30, "no revocation list in the library-created CRL");
+        let mut entries = Vec::new();
+        for i in 0..c.entries as u64 {
+            let e = CrlEntry::new(Serial::from(1000 + i * 77), Time::utc(2024, 1, 1 + i as u32, 0, 0, 0));
+            entries.extend_from_slice(e.encode().to_captured(Mode::Der).as_slice());
+        }
+        let (idx, n) = (rev.0, *rev.1);
+        tlv::splice(&mut tbs, &tn, idx, n.content(), 0, &entries, true);
+    }
+    let donor = |a: u32| -> Vec<u8> { s.all[a as usize % s.all.len()].der.clone() };
+    for m in &c.ops {
+        tlv::apply(&mut tbs, m.op(), &donor, 8192);
+    }
+    let sig = keys::raw_sign(MSG_KEY, &tbs);
+    let mut body = tbs;
+    body.extend_from_slice(&alg);
+    let mut bits = vec![0u8];
+    bits.extend_from_slice(&sig);
+    body.extend(tlv::tlv(0x03, &bits));
+    let new_list = tlv::tlv(0x30, &body);
+    tlv::splice(&mut msg, &nodes, list.parent, list.start, list.total(), &new_list, true);
+    Ok(msg)
+}
+
+fn run_resign(c: &ResignCase, obs: &mut Obs) -> CheckResult {
+    let data = resigned_bytes(c)?;
+    let entry = if c.publication { walk::PUB_CMS } else { walk::PROV_CMS };
+    let out = decide(entry, false, &data, obs)?;
+    obs.label_if(out.validated, "validated");
+    obs.label_if(out.validated && c.entries > 0, "validated-nonempty");
+    obs.label_if(c.ops.is_empty(), "unmutated");
+    if c.ops.is_empty() {
+        ensure_sig!(out.validated, "resign-self-check",
+            "re-signed but otherwise unmutated message with {} CRL entries does not validate under the pool key", c.entries);
+    }
+    // non-trivial here: validation ran through the revocation lookup
+    obs.nontrivial = out.validated;
+    Ok(())
+}
+
+//------------ property --------------------------------------------------------------
 
 pub fn property() -> Property {
-    Property { id: "C04", rule: "", assumptions: vec![], subs: vec![] }
+    Property {
+        id: "C04",
+        rule: RULE,
+        assumptions: vec![
+            "panics are observed through unwinding inside the vcheck process (16 threads with 64 MiB stacks); an abort or a stack overflow would end the process and be reported by ./check as inconclusive, not as a violation",
+            "the memory / time clause is decided through the deterministic proxy of a counting allocator (calls and peak live bytes per decode + walk) and only when it is installed as the global allocator of the binary (class 'alloc-measured'); a CPU-only super-linear loop would not be seen",
+            "objects created by SignedMessage::create carry the wall-clock signing time and CRL number (fixed-width fields); all other seeds are byte-identical between runs",
+            "re-decoding of re-encoded values is exercised for panics only; equality of the round trip belongs to C05",
+        ],
+        subs: vec![
+            EnumSub { name: "seeds", count: seed_count, make: seed_make, run: run_seed, exhaustive: true }.boxed(),
+            EnumSub { name: "prefixes", count: prefix_count, make: prefix_make, run: run_prefix, exhaustive: true }.boxed(),
+            PropSub {
+                name: "mutate",
+                strategy: mutate_strategy,
+                cases: |t| t.pick(600_000, 8_000_000),
+                run: run_mutate,
+                floors: MUTATE_FLOORS,
+            }
+            .boxed(),
+            PropSub {
+                name: "resign",
+                strategy: resign_strategy,
+                cases: |t| t.pick(30_000, 400_000),
+                run: run_resign,
+                floors: &[("validated", 0.15), ("validated-nonempty", 0.10)],
+            }
+            .boxed(),
+            PropSub {
+                name: "random",
+                strategy: random_strategy,
+                cases: |t| t.pick(300_000, 10_000_000),
+                run: run_random,
+                floors: &[("pure-random", 0.2), ("seed-prefix", 0.2)],
+            }
+            .boxed(),
+        ],
+    }
 }
+
+const MUTATE_FLOORS: &[(&str, f64)] = &[
+    ("ok", 0.05),
+    ("typed", 0.15),
+    ("ep:cert", 0.02),
+    ("ep:crl", 0.02),
+    ("ep:manifest", 0.02),
+    ("ep:roa", 0.02),
+    ("ep:aspa", 0.02),
+    ("ep:rta", 0.02),
+    ("ep:sigobj", 0.02),
+    ("ep:tal", 0.02),
+    ("ep:pubkey", 0.02),
+    ("ep:ca-csr", 0.02),
+    ("ep:bgpsec-csr", 0.02),
+    ("ep:idcert", 0.02),
+    ("ep:sigmsg", 0.02),
+    ("ep:prov-cms", 0.02),
+    ("ep:pub-cms", 0.02),
+];
